@@ -4,3 +4,5 @@ import Generated.Vartype
 import Generated.AbcSubst
 import Generated.Gates
 import Generated.VarsRules
+import Generated.VarsMethods
+import Generated.SlackRule
